@@ -4,8 +4,8 @@ func init() {
 	register(propSpec{
 		ID: "C15", Pkg: "props/c15", NeedCLI: true,
 		Rule: "cases: nucleotide and protein alignments of 1-6 rows and 1-15 columns (drawn column-wise from few patterns so that counts repeat and tie, gap rich, some with lower case, N/X, '.' and '*'); " +
-			"Mask with windows (start,length) over [-1,L+2]^2 (inside, ending on the last column, overhanging by 1-3 or by 1000 / 2^31, empty, start == L, negative), replacement '' / AMBIG / GAP / MAJ / a literal character / an unknown word, both protection flags, reference none / each row / an unknown name; " +
-			"MaskOccurences and MaskUnique with thresholds 0..n+1, the same replacements and references; every (start,length) in [-1,L+2]^2 x flags x references x replacements and every threshold for two fixed alignments by enumeration; " +
+			"Mask with windows (start,length) over [-1,L+2]^2 (inside, ending on the last column, overhanging by 1-3, by 1000 / 2^31 or up to math.MaxInt (incl. MaxInt-start and MaxInt-start+1), empty, start == L, negative, huge and huge negative starts/lengths), replacement '' / AMBIG / GAP / MAJ / a literal character / an unknown word, both protection flags, reference none / each row / an unknown name; " +
+			"MaskOccurences and MaskUnique with thresholds 0..n+1 (and MaxInt, MinInt, -1), the same replacements and references; every (start,length) in [-1,L+2]^2 x flags x references x replacements and every threshold for two fixed alignments by enumeration; " +
 			"executions of goalign mask with -s -l (on the alignment or on the ungapped reference through --ref-seq), --pos lists, --unique with --at-most (also together with the flags documented as ignored), --replace, --no-gaps, --no-ref, explicit and detected alphabet, on FASTA files and - one execution in three - on Phylip files holding 2-3 alignments (the command loops over them; each output alignment is judged with the model of ITS input alignment). " +
 			"Oracle: frame condition and selection rule computed on the generated rows - an error iff start < 0, start > L, the needed reference does not exist or the replacement is an unknown word; otherwise in the columns start <= i < min(start+length, L) a cell becomes the replacement iff it is not a protected gap and not a protected copy of the reference residue, every other cell, all names, the row order and the length are unchanged (also after a reported error); " +
 			"MaskOccurences: a non-gap cell of a row other than the reference whose residue differs from the reference's (or the reference has a gap) is rewritten iff at most k such cells of the column carry its residue; replacement N/X by alphabet, '-', the literal, or for MAJ one of the most frequent characters (of the column, of the counting cells), the same one for all rewritten cells of a column. " +
@@ -14,19 +14,20 @@ func init() {
 			"open corners accepted in every reading and counted as ambiguous: an empty window at position L and a negative length (error or nothing masked), an unknown reference name when no protection is asked, a reference window of length 0 from the command line",
 			"MAJ: any of the tied most frequent characters (gap included, it is a character) is accepted; with a reference both 'most frequent of the column' (the code of Mask) / 'of the counting cells' (the pinned MaskUniqueMAJ test) and 'of the column without the reference row' (docs/commands/mask.md) are accepted",
 			"a cell that is the reference residue in the other letter case may be protected or not; a column that holds one letter in both cases may be counted either way by MaskOccurences (any cell kept or rewritten)",
+			"windows whose start+length overflows int are generated and judged like any other: Mask truncates them at the end of the alignment, mask --ref-seq refuses them through RefCoordinates (defects before fixes eed1939 and d923a70)",
 			"goalign mask --ref-seq R --pos a,b,... is judged with every position read on the reference as given, also when an earlier position turns the reference residue into a gap (wrong columns before fix 4edb852)",
 			"--pos lists with the MAJ replacement are drawn without repeated positions (a column masked twice takes its second majority from the masked column)",
 			"absence of violations is established on the explored cases only; the enumerated sub-space is covered completely",
 		},
-		LevelText: "Generated-input search against a reference model: ~200 000 (quick) to ~4.8 million (thorough) maskings of generated alignments, ~20 000 enumerated option tuples on two fixed alignments and ~2 500 (quick) to ~32 000 (thorough) executions of goalign mask, each compared cell by cell with a frame-and-selection model written from the documentation. Shows absence of violations on what was explored; the enumerated tuples are exhaustive for the two alignments.",
+		LevelText: "Generated-input search against a reference model: ~300 000 (quick) to ~4.8 million (thorough) maskings of generated alignments, ~20 000 enumerated option tuples on two fixed alignments and ~3 000 (quick) to ~32 000 (thorough) executions of goalign mask, each compared cell by cell with a frame-and-selection model written from the documentation. Shows absence of violations on what was explored; the enumerated tuples are exhaustive for the two alignments.",
 		LevelNote: "trusts the harness's own selection model and its minimal FASTA and Phylip readers; corners the documentation leaves open are accepted in every reading and counted",
 		Technique: "property-based testing (rapid): reference model with frame condition; bounded-exhaustive enumeration of windows, flags and thresholds; command-line differential",
 		DesignRef: "DESIGN.md section 5, C15",
 		Runs: []runSpec{
-			{Name: "mask", Test: "^TestMask$", Quick: 100000, Thorough: 150000, Shards: 16},
-			{Name: "occurences", Test: "^TestOccurences$", Quick: 100000, Thorough: 150000, Shards: 16},
+			{Name: "mask", Test: "^TestMask$", Quick: 150000, Thorough: 150000, Shards: 16},
+			{Name: "occurences", Test: "^TestOccurences$", Quick: 150000, Thorough: 150000, Shards: 16},
 			{Name: "enumerate", Test: "^TestEnumerate$", Quick: 1, Thorough: 1},
-			{Name: "cli", Test: "^TestCLI$", Quick: 2500, Thorough: 4000, Shards: 8},
+			{Name: "cli", Test: "^TestCLI$", Quick: 3000, Thorough: 4000, Shards: 8},
 		},
 	})
 }
